@@ -219,3 +219,455 @@ def c03_extra(run, r, log):
                 run.violation('emptymatch-wrong-leaf', dict(definition=r['srcs'][i], leaf=l, nullable_leaves=flags),
                               key='emptyleaf|%s' % r['corpus'][i].origin)
     run.coverage['nullable_decisions_checked'] = checked
+
+
+# ---------------------------------------------------------------------------------------------
+# helpers shared by the configuration / trace / partial checks
+# ---------------------------------------------------------------------------------------------
+
+def streams_of(r, cfgname):
+    outs = r['zoo_out'].get(cfgname)
+    if outs is None:
+        return None
+    d = {}
+    for ln in outs:
+        idx, mode, hx, v = split_line(ln)
+        d[(idx, mode, hx)] = v
+    return d
+
+
+def setup_run(prop, tier, seed, log=print):
+    run = Run(prop, tier, seed)
+    au = audit(prop, load_theorems(prop))
+    for pb in au['problems']:
+        run.violation('proof', dict(theorem_audit=pb), no_input=True)
+    r = stage(run, log)
+    base_coverage(run, r, au)
+    for cfgname, outs in r['zoo_out'].items():
+        if outs is None:
+            run.violation('zoo-build', dict(config=cfgname, stderr=r['builds'][cfgname]['stderr'],
+                                            what='an accepted definition does not compile'), no_input=True)
+    return run, r
+
+
+def rep_of(r, idx, cfgname, mode, hx, **kw):
+    d = dict(definition=r['srcs'][idx], origin=r['corpus'][idx].origin, config=cfgname, mode=mode, input_hex=hx,
+             input_text=bytes.fromhex(hx if hx != '-' else '').decode('utf-8', 'replace'))
+    d.update(kw)
+    return d
+
+
+def tie_pass(run, r, modes=('n', 'p'), configs=None):
+    """implementation vs interpreter model on all streams; returns (#compared, #disagreements, defs)"""
+    lean = r['lean']
+    n = dis = 0
+    bad_defs = {}
+    for cfgname, outs in r['zoo_out'].items():
+        if outs is None or (configs is not None and cfgname not in configs):
+            continue
+        for ln in outs:
+            idx, mode, hx, v = split_line(ln)
+            if mode not in modes:
+                continue
+            mv = lean.get('%d LEX %s %s' % (idx, mode, hx))
+            n += 1
+            if mv != v:
+                dis += 1
+                bad_defs.setdefault(idx, (cfgname, mode, hx, v, mv))
+    return n, dis, bad_defs
+
+
+def report_tie(run, r, bad_defs, covered=()):
+    for idx, (cfgname, mode, hx, v, mv) in sorted(bad_defs.items()):
+        if idx in covered:
+            continue
+        run.violation('tie', rep_of(r, idx, cfgname, mode, hx, observed=v, model=mv,
+                                    what='compiled lexer and Lean interpreter model disagree; this property\'s oracle found no failing input',
+                                    correspondence='T-B/T-E implementation vs LogosModel (graphLex / interpLex)'),
+                      no_input=True, key='tie|%s' % r['corpus'][idx].origin)
+
+
+# ---------------------------------------------------------------------------------------------
+# C04
+# ---------------------------------------------------------------------------------------------
+
+def check_c04(tier, seed, log=print):
+    run, r = setup_run('C04', tier, seed, log)
+    corpus = r['corpus']
+    evals = 0
+    nontriv = set()
+    samples = []
+    bad = set()
+    for cfgname, outs in r['zoo_out'].items():
+        if outs is None:
+            continue
+        for ln in outs:
+            idx, mode, hx, v = split_line(ln)
+            if not corpus[idx].utf8:
+                continue
+            evals += 1
+            raw = bytes.fromhex(hx if hx != '-' else '')
+            if any(b >= 128 for b in raw):
+                nontriv.add((idx, hx))
+                if len(samples) < 4:
+                    samples.append(dict(definition=r['srcs'][idx], input_hex=hx, stream=v))
+            items, final, marker = parse_stream(v)
+            msg = None
+            if marker in ('BADSPAN', 'BADSLICE', 'PANIC') or (marker or '').startswith(('BADSPAN', 'BADSLICE')):
+                msg = 'marker %s' % marker
+            else:
+                s = raw.decode('utf-8', 'strict')
+                bounds = set()
+                acc = 0
+                bounds.add(0)
+                for ch in s:
+                    acc += len(ch.encode('utf-8'))
+                    bounds.add(acc)
+                for (k, nm, a, b) in items:
+                    if a not in bounds or b not in bounds:
+                        msg = 'item %s:%d-%d off a char boundary' % (nm, a, b)
+                        break
+                if msg is None and final is not None and (final[0] not in bounds or final[1] not in bounds):
+                    msg = 'final span off a char boundary'
+            if msg:
+                bad.add(idx)
+                run.violation('boundary', rep_of(r, idx, cfgname, mode, hx, observed=v, what=msg),
+                              key='%s|%s' % (corpus[idx].origin, hx))
+    # per-leaf UTF-8 closure of every accepted str-mode definition; rejected ones must have a reason
+    lines = []
+    ids = []
+    for i, c in enumerate(r['caps']):
+        if c is not None and not c.nodump and corpus[i].utf8:
+            lines += P.case_block(str(i), c, None)
+            lines.append('Q UTF8CLOSED')
+            ids.append(i)
+    ans = P.run_lean(lines, nproc=8)
+    closed = unknown = 0
+    for i in ids:
+        c = r['caps'][i]
+        flags = ans.get('%d UTF8CLOSED' % i, '').split(' ')
+        for li, f in enumerate(flags):
+            if f == '1':
+                closed += 1
+            elif f in ('U', 'L'):
+                unknown += 1
+            elif f == '0' and c.verdict == 'ACCEPT':
+                run.violation('nonutf8-accepted', dict(definition=r['srcs'][i], leaf=li,
+                                                       what='str-mode definition accepted although the Lean closure check finds the pattern can match invalid UTF-8 '
+                                                            '(utf8ClosedB failed with a complete search)'),
+                              key='nonutf8|%s|%d' % (corpus[i].origin, li))
+            elif f == '0' and 'nonutf8' not in c.err_classes():
+                pass  # rejected for another reason
+    n, dis, bad_defs = tie_pass(run, r)
+    report_tie(run, r, {k: v for k, v in bad_defs.items() if corpus[k].utf8}, covered=bad)
+    run.coverage.update(dict(evaluations=evals, distinct_nontrivial=len(nontriv),
+                             rule='every stream printed by the compiled str-mode lexers (all configurations, ordinary and partial mode); the runner checks span()/slice()/remainder() '
+                                  'against is_char_boundary before slicing; non-trivial = input contains a multi-byte character; plus utf8ClosedB on every leaf HIR',
+                             samples=samples, leaves_proved_utf8_closed=closed, leaves_unknown=unknown,
+                             model_vs_impl_disagreements=dis, impl_vs_oracle_failures=len(bad)))
+    run.assumptions += ['callbacks that bump are outside spans_on_boundaries (NoBump); bump itself is C15',
+                        'look-around leaves: closure check not applicable (L), covered by the runner-side boundary predicate only']
+    return run.finish()
+
+
+# ---------------------------------------------------------------------------------------------
+# C05 / C06: configuration equality
+# ---------------------------------------------------------------------------------------------
+
+def config_equal(run, r, pairs, prop):
+    fails = set()
+    n = 0
+    for a, b in pairs:
+        sa, sb = streams_of(r, a), streams_of(r, b)
+        if sa is None or sb is None:
+            continue
+        for k, v in sa.items():
+            n += 1
+            if sb.get(k) != v:
+                idx, mode, hx = k
+                fails.add(idx)
+                run.violation('config-diff', rep_of(r, idx, a + ' vs ' + b, mode, hx, observed_a=v, observed_b=sb.get(k),
+                                                    what='the two builds produce different results on this input'),
+                              key='%s|%s|%s' % (r['corpus'][idx].origin, mode, hx))
+    return n, fails
+
+
+TRACE_EV = re.compile(r'^([NRTEB])(\d+)(?:/(\d+)([+-])|>(\d+))?$')
+
+
+def parse_trace(v):
+    if ' |' not in v:
+        return None
+    tr = v.split(' |', 1)[1].split()
+    evs = []
+    for t in tr:
+        m = TRACE_EV.match(t)
+        if not m:
+            return None
+        k = m.group(1)
+        if k == 'R':
+            evs.append(('R', int(m.group(2)), int(m.group(3)), m.group(4) == '+'))
+        elif k == 'B':
+            evs.append(('B', int(m.group(2)), int(m.group(5))))
+        else:
+            evs.append((k, int(m.group(2))))
+    return evs
+
+
+def check_c05(tier, seed, log=print):
+    run, r = setup_run('C05', tier, seed, log)
+    cfgs = list(r['zoo_out'].keys())
+    pairs = [(a, b) for a, b in (('tail', 'tail_safe'), ('sm', 'sm_safe')) if a in cfgs and b in cfgs]
+    n, fails = config_equal(run, r, pairs, 'C05')
+    # forbid_unsafe builds must never panic
+    for cfgname in cfgs:
+        if 'safe' not in cfgname or r['zoo_out'][cfgname] is None:
+            continue
+        for ln in r['zoo_out'][cfgname]:
+            idx, mode, hx, v = split_line(ln)
+            if 'PANIC' in v:
+                fails.add(idx)
+                run.violation('safe-panic', rep_of(r, idx, cfgname, mode, hx, observed=v, what='forbid_unsafe build panicked'),
+                              key='panic|%s|%s' % (r['corpus'][idx].origin, hx))
+    # oracle on the real read trace: hit iff inside; recorded ends inside the source
+    tn = 0
+    nontriv = set()
+    samples = []
+    for cfgname in cfgs:
+        if 'trace' not in cfgname or r['zoo_out'][cfgname] is None:
+            continue
+        for ln in r['zoo_out'][cfgname]:
+            idx, mode, hx, v = split_line(ln)
+            evs = parse_trace(v)
+            ln_ = len(bytes.fromhex(hx if hx != '-' else ''))
+            tn += 1
+            if evs is None:
+                run.violation('trace-parse', rep_of(r, idx, cfgname, mode, hx, observed=v), no_input=True)
+                continue
+            if ln_ % 8 in (0, 1, 7) or ln_ < 8:
+                nontriv.add((idx, hx))
+            if len(samples) < 4 and ln_ >= 8:
+                samples.append(dict(definition=r['srcs'][idx], input_hex=hx, trace=v))
+            for e in evs:
+                msg = None
+                if e[0] == 'R' and e[3] != (e[1] + e[2] <= ln_):
+                    msg = 'read at %d size %d %s for a source of length %d' % (e[1], e[2], 'hit' if e[3] else 'missed', ln_)
+                elif e[0] == 'E' and e[1] > ln_:
+                    msg = 'token end %d recorded beyond source length %d' % (e[1], ln_)
+                elif e[0] == 'B' and e[2] > ln_:
+                    msg = 'error end %d beyond source length %d' % (e[2], ln_)
+                if msg:
+                    fails.add(idx)
+                    run.violation('bounds', rep_of(r, idx, cfgname, mode, hx, observed=v, what=msg),
+                                  key='bounds|%s|%s' % (r['corpus'][idx].origin, hx))
+                    break
+    nt, dis, bad_defs = tie_pass(run, r, modes=('n', 'p', 't'))
+    report_tie(run, r, bad_defs, covered=fails)
+    from props_lib import source_read_differential
+    sr = source_read_differential(run, tier, seed, log)
+    run.coverage.update(dict(evaluations=n + tn + sr.get('evaluations', 0), distinct_nontrivial=len(nontriv) + sr.get('distinct_nontrivial', 0),
+                             rule='streams of default vs forbid_unsafe builds compared on every request (inputs are prefixes of a longer allocation whose tail repeats the input, so an over-read changes the result); '
+                                  'real read traces (verif_trace) checked: a read hits iff offset+size <= len; non-trivial = input length < 8 or within 1 of a multiple of 8; '
+                                  'direct Source::read differential over chunk sizes 1..32 and offsets around len and usize::MAX, in debug and release, both feature sets',
+                             samples=samples, trace_lines=tn, source_read=sr,
+                             model_vs_impl_disagreements=dis, impl_vs_oracle_failures=len(fails)))
+    run.assumptions += ['raw pointer arithmetic itself is modelled by its guard (checked_add + <= len), not verified; Miri is supporting evidence in the thorough tier only']
+    return run.finish()
+
+
+def check_c06(tier, seed, log=print):
+    run, r = setup_run('C06', tier, seed, log)
+    cfgs = list(r['zoo_out'].keys())
+    pairs = [(a, b) for a, b in (('tail', 'sm'), ('tail_safe', 'sm_safe'), ('trace', 'sm_trace')) if a in cfgs and b in cfgs]
+    n, fails = config_equal(run, r, pairs, 'C06')
+    nt, dis, bad_defs = tie_pass(run, r, modes=('n', 'p', 't'))
+    report_tie(run, r, bad_defs, covered=fails)
+    from props_lib import stack_check
+    sc = stack_check(run, r, tier, seed, log)
+    nontriv = {(k[0], k[2]) for k, v in (streams_of(r, 'tail') or {}).items() if v.count(':') >= 2}
+    run.coverage.update(dict(evaluations=n, distinct_nontrivial=len(nontriv),
+                             rule='every request (ordinary, partial, and trace mode in the thorough tier) run on the tail-call and the state-machine build of the same definitions and compared verbatim, callbacks included (their invocations are visible through skips, errors and bumps); non-trivial = stream with >= 2 items',
+                             samples=[dict(pairs=pairs)], stack=sc,
+                             model_vs_impl_disagreements=dis, impl_vs_oracle_failures=len(fails)))
+    run.assumptions += ['stack usage of the compiled state-machine lexer is a property of the artefact: it is tested (long inputs on a small stack, and the emitted body contains no call to an emitted state function), not proved',
+                        'both code generators are rendered from one Generator whose only differences are state_transition/state_action/restart; the model has a single interpreter for both']
+    return run.finish()
+
+
+def check_c20(tier, seed, log=print):
+    run, r = setup_run('C20', tier, seed, log)
+    fails = set()
+    tn = 0
+    nontriv = set()
+    samples = []
+    worst = 0.0
+    for cfgname, outs in r['zoo_out'].items():
+        if 'trace' not in cfgname or outs is None:
+            continue
+        for ln in outs:
+            idx, mode, hx, v = split_line(ln)
+            evs = parse_trace(v)
+            tn += 1
+            if evs is None:
+                continue
+            # split into attempts at N / T
+            attempts = []
+            cur = None
+            for e in evs:
+                if e[0] in ('N', 'T'):
+                    cur = dict(start=e[1], reads=[])
+                    attempts.append(cur)
+                elif e[0] == 'R' and cur is not None:
+                    cur['reads'].append(e[1])
+            if len(attempts) >= 3:
+                nontriv.add((idx, hx))
+            for a in attempts:
+                rd = a['reads']
+                msg = None
+                if any(rd[i] > rd[i + 1] for i in range(len(rd) - 1)):
+                    msg = 'read offsets decrease within one attempt: %s' % rd
+                elif rd and rd[0] < a['start']:
+                    msg = 'read before the attempt start'
+                elif rd and len(rd) > 4 * (rd[-1] + 1 - a['start']) + 8:
+                    msg = '%d reads for %d bytes examined' % (len(rd), rd[-1] + 1 - a['start'])
+                if rd:
+                    worst = max(worst, len(rd) / float(rd[-1] + 1 - a['start']))
+                if msg:
+                    fails.add(idx)
+                    run.violation('backtrack', rep_of(r, idx, cfgname, mode, hx, observed=v, what=msg),
+                                  key='%s|%s' % (r['corpus'][idx].origin, hx))
+                    break
+            if len(samples) < 4 and len(attempts) >= 3:
+                samples.append(dict(definition=r['srcs'][idx], input_hex=hx, trace=v))
+    nt, dis, bad_defs = tie_pass(run, r, modes=('t',))
+    report_tie(run, r, bad_defs, covered=fails)
+    run.coverage.update(dict(evaluations=tn, distinct_nontrivial=len(nontriv),
+                             rule='real read traces of the compiled lexers (feature verif_trace) on transition-directed inputs, self-loop run lengths 0..17 and nested-repetition definitions; '
+                                  'per attempt (from Next/Trivia to the next): offsets non-decreasing, not before the start, count <= 4*(bytes examined)+8; non-trivial = >= 3 attempts; the same traces must equal the model\'s predicted trace exactly',
+                             samples=samples, worst_reads_per_byte=round(worst, 3),
+                             model_vs_impl_disagreements=dis, impl_vs_oracle_failures=len(fails)))
+    return run.finish()
+
+
+# ---------------------------------------------------------------------------------------------
+# C07 partial lexing
+# ---------------------------------------------------------------------------------------------
+
+def check_c07(tier, seed, log=print):
+    run, r = setup_run('C07', tier, seed, log)
+    lean = r['lean']
+    corpus = r['corpus']
+    fails = set()
+    n = 0
+    nontriv = set()
+    samples = []
+    eager_cmp = 0
+    for cfgname in r['zoo_out']:
+        if 'trace' in cfgname:
+            continue
+        st = streams_of(r, cfgname)
+        if st is None:
+            continue
+        for idx, (chosen, fam) in r['pfx'].items():
+            for S in chosen:
+                full = st.get((idx, 'n', P.hexs(S)))
+                if full is None:
+                    continue
+                fitems, ffinal, fmark = parse_stream(full)
+                for k in range(len(S) + 1):
+                    pr = S[:k]
+                    pv = st.get((idx, 'p', P.hexs(pr)))
+                    if pv is None:
+                        continue
+                    n += 1
+                    pitems, pfinal, pmark = parse_stream(pv)
+                    msg = None
+                    if pmark is not None:
+                        msg = 'marker ' + pmark
+                    elif pitems != fitems[:len(pitems)]:
+                        msg = 'items of the partial lexer are not a leading run of the one-shot items'
+                    elif pfinal is None or pfinal[0] != pfinal[1]:
+                        msg = 'span at None is not empty'
+                    else:
+                        q = pfinal[0]
+                        lo = pitems[-1][3] if pitems else 0
+                        hi = fitems[len(pitems)][2] if len(pitems) < len(fitems) else len(S)
+                        if not (lo <= q <= hi):
+                            msg = 'position at None (%d) is not between the last committed item end (%d) and the next item start (%d)' % (q, lo, hi)
+                    if len(pitems) >= 1 and k < len(S):
+                        nontriv.add((idx, P.hexs(pr), P.hexs(S)))
+                    if msg:
+                        fails.add(idx)
+                        run.violation('partial', rep_of(r, idx, cfgname, 'p', P.hexs(pr), full_input_hex=P.hexs(S), split=k,
+                                                        partial_stream=pv, oneshot_stream=full, what=msg),
+                                      key='%s|%s|%d' % (corpus[idx].origin, P.hexs(S), k))
+                    elif len(samples) < 4 and len(pitems) >= 2 and k < len(S):
+                        samples.append(dict(definition=r['srcs'][idx], prefix_hex=P.hexs(pr), full_hex=P.hexs(S), partial=pv, oneshot=full))
+                    # eagerness: for look-free definitions the partial stream must equal the reference partial lexer
+                    sv = lean.get('%d PSPEC %s' % (idx, P.hexs(pr)))
+                    if sv is not None and sv != 'LOOK':
+                        eager_cmp += 1
+                        if sv != pv and not msg:
+                            fails.add(idx)
+                            run.violation('partial-eager', rep_of(r, idx, cfgname, 'p', P.hexs(pr), partial_stream=pv, reference_partial=sv,
+                                                                  what='partial lexer differs from the reference partial lexer (commits too early or waits although the item is determined)'),
+                                          key='eager|%s|%s' % (corpus[idx].origin, P.hexs(pr)))
+    nt, dis, bad_defs = tie_pass(run, r, modes=('p',))
+    report_tie(run, r, bad_defs, covered=fails)
+    run.coverage.update(dict(evaluations=n, distinct_nontrivial=len(nontriv),
+                             rule='for sampled inputs S of every accepted definition and every split point k: Lexer::new_partial over S[..k] vs the one-shot lexing of S by the same compiled lexer '
+                                  '(leading run, empty span at None, position between committed end and next start), and vs the Lean reference partial lexer specLexP for look-free definitions; non-trivial = at least one item committed before a proper split',
+                             samples=samples, eagerness_comparisons=eager_cmp,
+                             model_vs_impl_disagreements=dis, impl_vs_oracle_failures=len(fails)))
+    return run.finish()
+
+
+# ---------------------------------------------------------------------------------------------
+# C13 callbacks
+# ---------------------------------------------------------------------------------------------
+
+def check_c13(tier, seed, log=print):
+    run, r = setup_run('C13', tier, seed, log)
+    lean = r['lean']
+    corpus = r['corpus']
+    cbdefs = [i for i in r['accepted'] if any(l.cb for l in corpus[i].leaves) or corpus[i].errcb]
+    fails = set()
+    n = 0
+    nontriv = set()
+    samples = []
+    kinds = {}
+    for i in cbdefs:
+        for l in corpus[i].leaves:
+            if l.cb:
+                kinds[l.cb] = kinds.get(l.cb, 0) + 1
+    for cfgname in r['zoo_out']:
+        if 'trace' in cfgname:
+            continue
+        st = streams_of(r, cfgname)
+        if st is None:
+            continue
+        for (idx, mode, hx), v in st.items():
+            if idx not in cbdefs or mode != 'n':
+                continue
+            n += 1
+            sv = lean.get('%d SPEC %s' % (idx, hx))
+            mv = lean.get('%d LEX n %s' % (idx, hx))
+            ref = sv if sv not in (None, 'LOOK') else mv
+            if '!c' in v or '!b' in v or 'Alt' in v:
+                nontriv.add((idx, hx))
+                if len(samples) < 5:
+                    samples.append(dict(definition=r['srcs'][idx], input_hex=hx, stream=v))
+            if ref != v:
+                fails.add(idx)
+                run.violation('callback', rep_of(r, idx, cfgname, mode, hx, observed=v, expected=ref,
+                                                 what='stream differs from the reference lexer with the documented callback table'),
+                              key='%s|%s' % (corpus[idx].origin, hx))
+    nt, dis, bad_defs = tie_pass(run, r, modes=('n',))
+    report_tie(run, r, {k: v for k, v in bad_defs.items() if k in cbdefs}, covered=fails)
+    run.coverage.update(dict(evaluations=n, distinct_nontrivial=len(nontriv),
+                             rule='definitions whose patterns carry callbacks of every supported return type (decision = pure function of the matched slice; bumping callbacks bump one ASCII byte) and an error callback; '
+                                  'streams of the compiled lexers vs the reference lexer specLex instantiated with the documented table (construct); non-trivial = stream shows a custom error, an error-callback value or a callback-built token',
+                             samples=samples, callback_kinds_used=kinds, definitions_with_callbacks=len(cbdefs),
+                             model_vs_impl_disagreements=dis, impl_vs_oracle_failures=len(fails)))
+    run.assumptions += ['callback bodies are executed, not modelled: the zoo implements the same pure decision function on both sides']
+    return run.finish()
